@@ -2146,9 +2146,9 @@ func lemmaForwardSession(raw *rawEnvelope) (e *Session, e3 *Session, accepted bo
 //@   props C09 C10
 //@   requires istype(a, []SessionEncryption) || istype(a, []SessionCompression)
 //@   modifies nothing
-//@   loop 0 invariant 0 <= i
-//@   loop 0 invariant istype(a, []SessionEncryption) ==> i <= len(a.([]SessionEncryption)) && (istype(e, SessionEncryption) ==> !inset(elems(prefix(a.([]SessionEncryption), i)), e.(SessionEncryption)))
-//@   loop 0 invariant istype(a, []SessionCompression) ==> i <= len(a.([]SessionCompression)) && (istype(e, SessionCompression) ==> !inset(elems(prefix(a.([]SessionCompression), i)), e.(SessionCompression)))
+//@   loop 0 invariant 0 <= carried(int)
+//@   loop 0 invariant istype(a, []SessionEncryption) ==> carried(int) <= len(a.([]SessionEncryption)) && (istype(e, SessionEncryption) ==> !inset(elems(prefix(a.([]SessionEncryption), carried(int))), e.(SessionEncryption)))
+//@   loop 0 invariant istype(a, []SessionCompression) ==> carried(int) <= len(a.([]SessionCompression)) && (istype(e, SessionCompression) ==> !inset(elems(prefix(a.([]SessionCompression), carried(int))), e.(SessionCompression)))
 //@   ensures [C09,C10] @membership istype(a, []SessionEncryption) && istype(e, SessionEncryption) ==> result == inset(elems(a.([]SessionEncryption)), e.(SessionEncryption))
 //@   ensures [C09,C10] @membershipcomp istype(a, []SessionCompression) && istype(e, SessionCompression) ==> result == inset(elems(a.([]SessionCompression)), e.(SessionCompression))
 
@@ -2156,9 +2156,9 @@ func lemmaForwardSession(raw *rawEnvelope) (e *Session, e3 *Session, accepted bo
 //@   props C09 C10
 //@   requires encPair(a, b) || compPair(a, b)
 //@   modifies nothing
-//@   loop 0 invariant 0 <= i && fresh(set)
-//@   loop 0 invariant encPair(a, b) ==> i <= len(a.([]SessionEncryption)) && alltags(set, SessionEncryption) && subset(elems(set), elems(a.([]SessionEncryption))) && subset(elems(set), elems(b.([]SessionEncryption))) && ((len(set) == 0) == emptyinter(elems(prefix(a.([]SessionEncryption), i)), elems(b.([]SessionEncryption))))
-//@   loop 0 invariant compPair(a, b) ==> i <= len(a.([]SessionCompression)) && alltags(set, SessionCompression) && subset(elems(set), elems(a.([]SessionCompression))) && subset(elems(set), elems(b.([]SessionCompression))) && ((len(set) == 0) == emptyinter(elems(prefix(a.([]SessionCompression), i)), elems(b.([]SessionCompression))))
+//@   loop 0 invariant 0 <= carried(int) && fresh(carried([]interface{}))
+//@   loop 0 invariant encPair(a, b) ==> carried(int) <= len(a.([]SessionEncryption)) && alltags(carried([]interface{}), SessionEncryption) && subset(elems(carried([]interface{})), elems(a.([]SessionEncryption))) && subset(elems(carried([]interface{})), elems(b.([]SessionEncryption))) && ((len(carried([]interface{})) == 0) == emptyinter(elems(prefix(a.([]SessionEncryption), carried(int))), elems(b.([]SessionEncryption))))
+//@   loop 0 invariant compPair(a, b) ==> carried(int) <= len(a.([]SessionCompression)) && alltags(carried([]interface{}), SessionCompression) && subset(elems(carried([]interface{})), elems(a.([]SessionCompression))) && subset(elems(carried([]interface{})), elems(b.([]SessionCompression))) && ((len(carried([]interface{})) == 0) == emptyinter(elems(prefix(a.([]SessionCompression), carried(int))), elems(b.([]SessionCompression))))
 //@   ensures fresh(result)
 //@   ensures [C09,C10] @enc encPair(a, b) ==> alltags(result, SessionEncryption) && subset(elems(result), elems(a.([]SessionEncryption))) && subset(elems(result), elems(b.([]SessionEncryption))) && ((len(result) == 0) == emptyinter(elems(a.([]SessionEncryption)), elems(b.([]SessionEncryption))))
 //@   ensures [C09,C10] @comp compPair(a, b) ==> alltags(result, SessionCompression) && subset(elems(result), elems(a.([]SessionCompression))) && subset(elems(result), elems(b.([]SessionCompression))) && ((len(result) == 0) == emptyinter(elems(a.([]SessionCompression)), elems(b.([]SessionCompression))))
